@@ -288,6 +288,9 @@ def generate(seed, tier):
         from ..world import add_sparse_range
         add_sparse_range(Rng(seed, 'sparse'), world)
     add_cover_of_array(Rng(seed, 'cover'), world)
+    breakers = None
+    if sw.chance(.15):
+        world, breakers = gen_circular(seed, t)
     frng = Rng(seed, 'fault')
     # SIMFAULT wrappers around some formulas
     if sw.chance(.5):
@@ -299,6 +302,8 @@ def generate(seed, tier):
     pl = identity_placement(world) if srng.chance(.4) else gen_placement(
         Rng(seed, 'place'), world)
     s = {'kind': kind, 'placement': pl}
+    if breakers is not None:
+        s['circular'] = True
     n_items = len(world['cells']) + len(world['names'])
     if kind == 'dict':
         s['order'] = srng.perm(n_items)
@@ -315,6 +320,16 @@ def generate(seed, tier):
                                      blanks=orng.chance(.3)),
                 'outputs': gen_targets(orng, world, orng.randrange(1, 4),
                                        False) if orng.chance(.3) else None}
+    if breakers:
+        # circular world: the observed calculation overrides (at least) one
+        # cell of every cycle - as constants those cells leave no cycle
+        have = {tuple(tg) for tg, _ in observed['inputs']
+                if tg[0] == 'cell'}
+        for i in breakers:
+            if ('cell', i) not in have:
+                tg = ['cell', i]
+                observed['inputs'].append(
+                    [tg, regen_value(orng, world, tg)])
     # the same targets overridden again with OTHER values: half of the
     # earlier calculations re-use the targets of the observed one (a stale
     # value left by the earlier override must not survive)
@@ -374,10 +389,73 @@ def lib_outputs(world, P, m, outs):
     return keys or None
 
 
+def gen_circular(seed, t):
+    """A world with circular references that no branch selection avoids
+    (arithmetic and aggregates only), finished with circular=True, and the
+    cells to override so that every cycle holds a constant."""
+    from ..cyc import Graph
+    rng, sw = Rng(seed, 'circ/world'), Rng(seed, 'circ/swarm')
+    prof = profile(
+        win=t['win'], max_cells=t['max_cells'], min_cells=3,
+        max_books=sw.pick([1, 1, 2]), max_sheets=sw.pick([1, 2]),
+        p_arr=0, p_name=sw.pick([0, .15]), p_cross=.4, p_text=0, p_bool=0,
+        p_err=0, p_frac=0, p_formula=.8, depth=sw.pick([1, 2, 2]),
+        p_back=sw.pick([.25, .4, .6]),
+        w_ref=5, w_num=1, w_op=4, w_aggr=sw.pick([0, 3]),
+        w_if=0, w_iferror=0, w_iserror=0, w_name=1.5, w_ifs=0, w_ifna=0,
+    )
+    world = gen_world(rng, prof)
+    G = Graph(world)
+    left = [set(c) for c in G.cycles()]
+    breakers = []
+    while left:
+        # the cell on most of the remaining cycles (ties: a seeded choice)
+        count = {}
+        for c in left:
+            for i in c:
+                count[i] = count.get(i, 0) + 1
+        top = max(count.values())
+        i = sw.pick(sorted(k for k, v in count.items() if v == top)) \
+            if sw.chance(.5) else sw.pick(sorted(count))
+        breakers.append(i)
+        left = [c for c in left if i not in c]
+    # a member of a cycle that is NOT overridden also reads a chain of
+    # formulas outside the cycle: its value is settled late in the calculation
+    on = sorted(G.on_cycle() - set(breakers))
+    if on and sw.chance(.6):
+        add_feeder_chain(sw, world, sw.pick(on), sw.randrange(1, 6))
+    return world, sorted(breakers)
+
+
+def add_feeder_chain(rng, world, i, depth):
+    idx = Index(world)
+    c = world['cells'][i]
+    b, s = c['at'][0], c['at'][1]
+    h, w = world['books'][b][s]
+    covered = set(idx.occ)
+    for x in world['cells']:
+        if 'f' in x:
+            for y in refs_of(x['f']):
+                r = y if y[0] == 'r' else world['names'][y[1]]['t']
+                covered.update(rect_cells(r))
+    for n in world['names']:
+        covered.update(rect_cells(n['t']))
+    r0 = max([q[2] for q in covered if q[:2] == (b, s)] + [h - 1]) + 1
+    world['cells'].append({'at': [b, s, r0, 0], 'v': rng.randrange(1, 9)})
+    for k in range(1, depth + 1):
+        world['cells'].append({'at': [b, s, r0, k], 'f': [
+            'op', '+', ['r', b, s, r0, k - 1, r0, k - 1], ['n', 1]]})
+    c['f'] = ['op', '+', c['f'], ['r', b, s, r0, depth, r0, depth]]
+    world['books'][b][s] = [max(h, r0 + 1), max(w, depth + 1)]
+
+
 def build(world, s, log=None):
+    circ = bool(s.get('circular'))
     if s['kind'] == 'dict':
-        return build_dict_model(world, s['placement'], s.get('order'), log=log)
-    m, disk = build_file_model(world, s['placement'], s, log=log)
+        return build_dict_model(world, s['placement'], s.get('order'), log=log,
+                                circular=circ)
+    m, disk = build_file_model(world, s['placement'], s, log=log,
+                               circular=circ)
     disk.uninstall()
     return m
 
